@@ -14,10 +14,11 @@ SPEC = {
         "in C37_locations_end_to_end; lifted to whole commands `pre $(kw arg) post` by C37_command_in_context), out_ and tool sequences name the real outputs (C37_out_paths, C37_tool_abs), "
         "non-dependency / unparsable labels, multi-output and non-binary misuse are rejected (C37_reject_*), and paths "
         "made of ordinary characters and the characters quote reacts to are exactly one shell word each "
-        "(C37_one_word_partial, C37_words_partial). PARTIAL: five clauses of the full statement are false on the pinned "
-        "code, each with a kernel-checked witness and a narrow known-finding class (quote misses space/quote/$/backtick/"
-        "glob characters; plain names are not checked against the sources; single-output sequences accept zero outputs; "
-        "an entry point of a tool is not made absolute; $(dir) of a root-package target is empty). The shell grammar is a "
+        "(C37_one_word_partial, C37_words_partial). REPAIRED in /repo and now proved in full: single-output "
+        "sequences reject a target without outputs (C37_reject_zero, C37_single_output_exact; fix 45b862e), $(dir) is never "
+        "empty (C37_dir_full; fix ddddbe1), an entry point of a tool is its absolute path (C37_tool_entry_point_abs; fix "
+        "2c9bf67). PARTIAL: two clauses remain false, each with a kernel-checked witness and a narrow known-finding class "
+        "(quote misses space/quote/$/backtick/glob characters; plain names are not checked against the sources). The shell grammar is a "
         "POSIX subset (no expansions: they are classified as 'not one literal word')."
     ),
     "technique": "Lean 4 theorems over an executable model of ReplaceSequences + a POSIX-subset word splitter; regenerated "
